@@ -10,10 +10,11 @@ Cls(x) == IF x > 255 THEN ">255" ELSE "<=255"
 FieldDesc(f) == LET sh == sc.fields[f] IN
                 IF sh = Natural THEN "" ELSE f \o ":cps" \o Cls(CpsOf(sh)) \o ",bytes" \o Cls(BytesOf(sh)) \o ";"
 Desc == FieldDesc("type") \o FieldDesc("state_key") \o FieldDesc("sender") \o FieldDesc("room_id")
-        \o (IF sc.size = 0 THEN "" ELSE IF sc.size > 65536 THEN "json>65536" ELSE "json<=65536")
+        \o (IF sc.size = 0 THEN "" ELSE IF sc.size > 65536 THEN "json>65536;" ELSE "json<=65536;")
+        \o (IF sc.hash = "match" THEN "" ELSE "hash=" \o sc.hash \o ";")
 
 Emit == Done =>
-          PrintT(ToJson([fam |-> Family, ver |-> sc.ver, path |-> sc.path, size |-> sc.size,
+          PrintT(ToJson([fam |-> Family, ver |-> sc.ver, path |-> sc.path, hash |-> sc.hash, size |-> sc.size, sizeof |-> sc.sizeof,
                          fields |-> [f \in Fields |-> [cps |-> sc.fields[f].cps, nwide |-> sc.fields[f].nwide,
                                                        width |-> sc.fields[f].width, bytes |-> BytesOf(sc.fields[f])]],
                          want |-> out, vclass |-> VClass(sc.ver), desc |-> Desc]))
